@@ -62,7 +62,13 @@ def pipeline(prop, tier, fam):
             if limit and len(cases) > limit:
                 import random
                 rnd = random.Random(seed)
-                cases = rnd.sample(cases, limit)
+                # cases marked _keep (thin families the sample must not miss) are always replayed
+                kept = [c for c in cases if isinstance(c, dict) and c.get("_keep")]
+                rest = [c for c in cases if not (isinstance(c, dict) and c.get("_keep"))]
+                cases = kept + rnd.sample(rest, max(0, min(len(rest), limit - len(kept))))
+            for c in cases:
+                if isinstance(c, dict):
+                    c.pop("_keep", None)
             if m.get("setup"):
                 cases.insert(0, m["setup"](world))
             cpath = os.path.join(wd, m["name"] + ".cases.ndjson")
@@ -153,8 +159,11 @@ def replay(prop, path, fam):
     cpath = os.path.join(wd, "replay.cases.ndjson")
     tpath = os.path.join(wd, "replay.trace.ndjson")
     vlib.write_ndjson(cpath, [case])
-    vlib.conform("replay", fam["family"], cpath, tpath, binary=fam.get("binary"))
-    n, bad, _ = vlib.validate_trace(fam["trace_module"], tpath, wd)
+    # a property may be served by several harness families: the event says which one recorded it
+    famname = fam.get("family_of_event", lambda e: fam["family"])(ev)
+    tmod = fam.get("trace_module_of_event", lambda e: fam["trace_module"])(ev)
+    vlib.conform("replay", famname, cpath, tpath, binary=fam.get("binary"))
+    n, bad, _ = vlib.validate_trace(tmod, tpath, wd)
     with open(tpath) as f:
         print(f.read()[:4000])
     if bad:
